@@ -39,11 +39,13 @@ type IfaceAlt struct {
 	val Value
 }
 type IfaceV struct{ alts []IfaceAlt } // no alternative holds = nil interface
-// obj==0: nil map; nn (when not nil) is the condition under which the map is non-nil (merged nil / non-nil)
-type MapV struct {
+// a map value is a guarded set of map objects (no alternative holds = nil map)
+type MapAlt struct {
+	g   *Term
 	obj int
-	nn  *Term
 }
+type MapV struct{ alts []MapAlt }
+
 type ChanV struct{ obj int }
 type Undef struct{ why string }
 
@@ -197,11 +199,11 @@ func (e *Engine) mkIface(t types.Type, v Value) IfaceV {
 }
 
 func (e *Engine) mapNonNil(m MapV) *Term {
-	if m.obj == 0 {
-		return e.False
+	r := e.False
+	for _, a := range m.alts {
+		r = e.Or(r, a.g)
 	}
-	if m.nn == nil {
-		return e.True
-	}
-	return m.nn
+	return r
 }
+
+func (e *Engine) mkMap(obj int) MapV { return MapV{[]MapAlt{{e.True, obj}}} }
